@@ -18,7 +18,7 @@ let rec z_of_pos = function
 let z_of_n = function N0 -> Zr.zero | Npos p -> z_of_pos p
 let n_of_string s = n_of_z (Zr.of_string s)
 let string_of_n x = Zr.to_string (z_of_n x)
-let rec nat_of_int i = if i <= 0 then O else S (nat_of_int (i - 1))
+let nat_of_int i = let rec go acc i = if i <= 0 then acc else go (S acc) (i - 1) in go O i
 let rec int_of_nat = function O -> 0 | S k -> 1 + int_of_nat k
 let zz_of_string s : z =
   let v = Zr.of_string s in
@@ -48,6 +48,7 @@ let filler = "\001" ^ String.make 31 '\000'
 (* ---------- state ---------- *)
 let cur : string slots ref = ref []
 let stack : string slots list ref = ref []
+let blocks : (string list * string list) list ref = ref []   (* newest first *)
 let ctx_cache : string ctx option ref = ref None
 let ctx () = match !ctx_cache with
   | Some c -> c
@@ -117,17 +118,19 @@ let handle (toks : string list) =
   | ["CASE"; id] -> case_id := id
   | ["SHA"; inp; out] ->
     check "selftest" "sha" (String.equal (Sha.sha512_256 (unhex inp)) (unhex out)) (fun () -> "sha512_256 mismatch")
-  | ["RESET"] -> set_state []; stack := []
+  | ["RESET"] -> set_state []; stack := []; blocks := []
   | ["BLOCK"; dels; adds] ->
     stack := !cur :: !stack;
+    blocks := (hashes_of dels, hashes_of adds) :: !blocks;
     set_state (apply_block ops !cur (hashes_of dels) (hashes_of adds))
   | ["BLOCKT"; targets; adds] ->
     (match leaves_at (ctx ()) (ns_of targets) with
-     | Some dels -> stack := !cur :: !stack; set_state (apply_block ops !cur dels (hashes_of adds))
+     | Some dels -> stack := !cur :: !stack; blocks := (dels, hashes_of adds) :: !blocks;
+       set_state (apply_block ops !cur dels (hashes_of adds))
      | None -> fail "harness" "BLOCKT" "targets are not leaf positions")
   | ["UNDO"] ->
     (match !stack with
-     | s :: rest -> set_state s; stack := rest
+     | s :: rest -> set_state s; stack := rest; (match !blocks with _ :: b -> blocks := b | [] -> ())
      | [] -> fail "harness" "UNDO" "empty stack")
   | "U" :: fn :: rest ->
     let rec split acc = function
@@ -260,6 +263,20 @@ let handle (toks : string list) =
     let e = (match exp_missing_stored ops c (hashes_of want) (ns_of stored) with Some l -> str_ns l | None -> "err") in
     check "prop" ("MISSINGST." ^ label) (String.equal e res) (fun () -> Printf.sprintf "want=%s spec=%s impl=%s" want e res)
   (* EQ label a b : two observations of the implementation that the property says are equal *)
+  | ["SCHED"; label; maxmem; sch] ->
+    let sch' = List.map ns_of (String.split_on_char '|' sch) in
+    let code = chk_schedule ops (List.rev !blocks) (nat_of_int (int_of_string maxmem)) sch' in
+    check "prop" ("SCHED." ^ label) (code = N0)
+      (fun () -> Printf.sprintf "maxMemory=%s clause=%s (1 length, 2 not-a-leaf-added-here-and-deleted-later/dup/unsorted, 3 over memory, 4 incomplete) schedule=%s"
+          maxmem (string_of_n code) sch)
+  | ["TTLS"; label; t] ->
+    let got = List.map (fun b -> List.sort compare (List.map (fun (p, h) -> (string_of_n p, h)) 
+                (List.map (fun e -> match String.split_on_char ':' e with [p; v] -> (n_of_string p, v) | _ -> failwith "ttl") (split_list b))))
+        (String.split_on_char '|' t) in
+    let exp = List.map (fun b -> List.sort compare (List.map (fun (p, v) -> (string_of_n p, string_of_n v)) b)) (exp_ttls ops (List.rev !blocks)) in
+    check "prop" ("TTLS." ^ label) (exp = got)
+      (fun () -> Printf.sprintf "spec=%s impl=%s"
+          (String.concat "|" (List.map (fun b -> String.concat "," (List.map (fun (p, v) -> p ^ ":" ^ v) b)) exp)) t)
   | ["EQ"; label; a; b] ->
     check "prop" ("EQ." ^ label) (String.equal a b) (fun () -> Printf.sprintf "a=%s b=%s" a b)
   | t :: _ -> fail "harness" t "unknown event"
